@@ -174,51 +174,53 @@ class TraceVerdict:
     result: TLCResult
 
 
-def validate_traces(module: str, cfg: str, traces: list, *, env: dict | None = None, timeout: int = 900,
-                    chunk: int = 4000, extra_files: list[Path] | None = None) -> TraceVerdict:
-    """Validate many recorded traces against a trace spec in as few JVM invocations as possible.
-    The trace spec reads ``IOEnv.TRACE_FILE`` (a JSON array of traces, each a JSON array of event
-    records), chooses ``tid`` in Init, keeps the furthest position reached per trace in TLC
-    register tid, and its POSTCONDITION prints ``<<"REJECT", tid, l>>`` per unfinished trace."""
+def _validate_chunk(module, cfg, part, env, timeout, extra_files):
+    d = scratch("tr")
+    try:
+        tf = d / "traces.json"
+        tf.write_text(json.dumps(part))
+        e = dict(env or {})
+        e["TRACE_FILE"] = str(tf)
+        r = run_tlc(module, cfg, workers=1, timeout=timeout, env=e, files=extra_files)
+        rej = {}
+        for m in re.finditer(r'<<"REJECT", (\d+), (\d+)>>', r.out):
+            rej[int(m.group(1)) - 1] = int(m.group(2))
+        if r.violated:
+            raise MachineryError("trace validation hit an invariant/property instead of finishing\n" + r.out[-2000:])
+        if "Model checking completed" not in r.out:
+            raise MachineryError("trace validation did not complete\n" + r.out[-2000:])
+        return rej, r
+    finally:
+        shutil.rmtree(d, ignore_errors=True)
+
+
+def validate_traces(module: str, cfg: str, traces: list, *, env: dict | None = None, timeout: int = 1800,
+                    chunk: int = 1500, extra_files: list[Path] | None = None, parallel: int = 8) -> TraceVerdict:
+    """Validate many recorded traces against a trace spec in few JVM invocations.  The trace spec
+    reads ``IOEnv.TRACE_FILE`` (a JSON array of traces, each a JSON array of event records),
+    chooses ``tid`` in Init, keeps the furthest position reached per trace in TLC register tid,
+    and its POSTCONDITION prints ``<<"REJECT", tid, l>>`` for each trace not consumed to its end
+    (l = 1-based position of the first event that no action of the specification explains)."""
+    from concurrent.futures import ThreadPoolExecutor
     accepted, rejected = [], {}
     total = TLCResult(ok=True)
-    for base in range(0, len(traces), chunk):
-        part = traces[base:base + chunk]
-        d = scratch("tr")
-        try:
-            tf = d / "traces.json"
-            tf.write_text(json.dumps(part))
-            e = dict(env or {})
-            e["TRACE_FILE"] = str(tf)
-            r = run_tlc(module, cfg, workers=1, timeout=timeout, env=e, files=extra_files)
+    if not traces:
+        return TraceVerdict([], {}, total)
+    bases = list(range(0, len(traces), chunk))
+    with ThreadPoolExecutor(max_workers=parallel) as ex:
+        futs = [ex.submit(_validate_chunk, module, cfg, traces[b:b + chunk], env, timeout, extra_files) for b in bases]
+        for b, f in zip(bases, futs):
+            rej, r = f.result()
             total.generated += r.generated
             total.distinct += r.distinct
             total.wall_s += r.wall_s
             total.cmd = r.cmd
-            rej = {}
-            for m in re.finditer(r'<<"REJECT", (\d+), (\d+)>>', r.out):
-                rej[int(m.group(1)) - 1] = int(m.group(2))
-            if r.violated and r.violated != "unknown" and not rej and "REJECT" not in r.out:
-                # an invariant of the contract failed along a trace: find out which trace
-                m = re.search(r"tid = (\d+)", r.out)
-                lpos = re.findall(r"/\\ l = (\d+)", r.out)
-                if m:
-                    rej[int(m.group(1)) - 1] = int(lpos[-1]) if lpos else 0
-                    total.violated = r.violated
-                    total.out = r.out
-                else:
-                    raise MachineryError("trace validation failed without a trace id\n" + r.out[-2000:])
-            if "REJECT" not in r.out and not r.violated and "Model checking completed" not in r.out:
-                raise MachineryError("trace validation did not complete\n" + r.out[-2000:])
-            for k in range(len(part)):
+            total.depth = max(total.depth, r.depth)
+            for k in range(len(traces[b:b + chunk])):
                 if k in rej:
-                    rejected[base + k] = rej[k]
+                    rejected[b + k] = rej[k]
                 else:
-                    accepted.append(base + k)
-            if not total.out:
-                total.out = r.out[-4000:]
-        finally:
-            shutil.rmtree(d, ignore_errors=True)
+                    accepted.append(b + k)
     return TraceVerdict(accepted, rejected, total)
 
 
